@@ -53,7 +53,8 @@ namespace Pistache
 
         typename Base::int_type snext() const
         {
-            if (this->gptr() == this->egptr())
+            // The next character only exists if at least two characters are left
+            if (this->egptr() - this->gptr() < 2)
             {
                 return traits_type::eof();
             }
